@@ -12,6 +12,8 @@ def run(tier, seed):
     vlib.require(rep["nontrivial"] > 100, "replay too small")
     r2, rep2 = netcommon.mc_and_replay(v, wd, "c01d", 3 if tier == "quick" else 4, False, workers=12)
     vlib.require(rep2["nontrivial"] > 50, "replay c01d too small")
+    nl, rq = (8, 60) if tier == "quick" else (80, 80)
+    netcommon.corpus_stage(v, wd, seed, nl, rq)
     return v.finish("model_checking", "lists of <= %d rules" % k, exhaustive=True)
 
 
